@@ -91,7 +91,7 @@ def worlds(va: int, u21: int, up: int) -> bool:
                         for m2pub in (False, True):
                             for target in ("m1", "m2"):
                                 for la in range(4):
-                                    for su in ((0, 1) if THOROUGH else (0,)):
+                                    for su in (0, 1):
                                         w = W(m1p, VIS[va], vb, vc, u21, m2p, m2pub, target, up, la, su)
                                         msg = check_world(w)
                                         if msg:
